@@ -73,6 +73,8 @@ def rule_reverse_table(ctx: Ctx) -> None:
         try:
             kf, uf = gatesum.summarise(repo, fwd) if fwd != "identity" else ("1", cl.I2)
             kr, ur = gatesum.summarise(repo, rv) if rv != "identity" else ("1", cl.I2)
+        except gatesum.BadSignUpdate:
+            continue  # reported by effect.derived-gate
         except (gatesum.Unsummarisable, AnalysisError) as e:
             raise AnalysisError(f"run_circuit: tag '{tag}' -> {fwd}/{rv}: {e}")
         if cl.key(uf) == cl.key(want):
